@@ -3,7 +3,7 @@
 use std::{
     marker::PhantomData,
     sync::Arc,
-    sync::mpsc::{Sender, channel},
+    sync::mpsc::{RecvTimeoutError, Sender, channel},
     thread,
     time::{Duration, Instant},
 };
@@ -59,9 +59,15 @@ where
                         last_flush = Instant::now();
                         let _ = sender.send(());
                     }
-                    Err(_) => {
+                    Err(RecvTimeoutError::Timeout) => {
                         inner.flush();
                         last_flush = Instant::now();
+                    }
+                    Err(RecvTimeoutError::Disconnected) => {
+                        // every handle is gone and the channel is drained: emit what is
+                        // still held and let the thread (and the inner sink) go
+                        inner.flush();
+                        return;
                     }
                 }
             }
